@@ -21,7 +21,7 @@ pub enum PKind {
     UnknownValue { value: String, accepted: Vec<String> },
     BadSequenceLen { actual: PV, expected: usize },
     /// free-text report; every listed string must occur in the message
-    Unexpected { must_contain: Vec<String>, any_of: Vec<String>, why: &'static str },
+    Unexpected { must_contain: Vec<String>, any_of: Vec<String>, any_of2: Vec<String>, why: &'static str },
     Foreign(ProbeData),
 }
 
@@ -53,9 +53,10 @@ impl PKind {
             (PKind::BadSequenceLen { actual, expected }, RKind::BadSequenceLen { actual: a2, expected: e2 }) => {
                 actual == a2 && expected == e2
             }
-            (PKind::Unexpected { must_contain, any_of, .. }, RKind::Unexpected { msg }) => {
+            (PKind::Unexpected { must_contain, any_of, any_of2, .. }, RKind::Unexpected { msg }) => {
                 must_contain.iter().all(|s| msg.contains(s.as_str()))
                     && (any_of.is_empty() || any_of.iter().any(|s| msg.contains(s.as_str())))
+                    && (any_of2.is_empty() || any_of2.iter().any(|s| msg.contains(s.as_str())))
             }
             (PKind::Foreign(p), RKind::Foreign(p2)) => p == p2,
             _ => false,
@@ -167,7 +168,7 @@ impl Interp {
                     } else if n == 0 {
                         self.report(
                             loc,
-                            PKind::Unexpected { must_contain: vec!["empty".into()], any_of: vec![], why: "char from empty string" },
+                            PKind::Unexpected { must_contain: vec![], any_of: vec!["empty".into(), "0 char".into(), "zero char".into(), "no char".into(), "``".into(), "\"\"".into()], any_of2: vec![], why: "char from empty string" },
                             false,
                         );
                         None
@@ -177,6 +178,7 @@ impl Interp {
                             PKind::Unexpected {
                                 must_contain: vec![s.clone(), n.to_string()],
                                 any_of: vec![],
+                                any_of2: vec![],
                                 why: "char from a string of several characters",
                             },
                             false,
@@ -274,7 +276,7 @@ impl Interp {
                             None => {
                                 self.report(
                                     loc,
-                                    PKind::Unexpected { must_contain: vec![k.clone()], any_of: vec![], why: "unparsable map key" },
+                                    PKind::Unexpected { must_contain: vec![k.clone()], any_of: vec![], any_of2: vec![], why: "unparsable map key" },
                                     false,
                                 );
                                 self.pred.unvisited.insert(x.id);
@@ -312,7 +314,7 @@ impl Interp {
                             None => {
                                 self.report(
                                     loc,
-                                    PKind::Unexpected { must_contain: vec![], any_of: vec![], why: "unparsable CS segment" },
+                                    PKind::Unexpected { must_contain: vec![], any_of: vec![], any_of2: vec![], why: "unparsable CS segment" },
                                     false,
                                 );
                                 return None;
@@ -369,7 +371,7 @@ impl Interp {
                     let Some(var) = en.variants.iter().find(|v| v.key == *name) else {
                         self.report(
                             loc,
-                            PKind::Unexpected { must_contain: vec![], any_of: vec![], why: "tag names no variant" },
+                            PKind::Unexpected { must_contain: vec![], any_of: vec![], any_of2: vec![], why: "tag names no variant" },
                             true,
                         );
                         return None;
@@ -567,7 +569,7 @@ impl Interp {
     fn go_json(&mut self, ov: &OV, loc: &mut Path) {
         match &ov.v {
             OVK::Float(f) if !f.is_finite() => {
-                self.report(loc, PKind::Unexpected { must_contain: vec![], any_of: vec![], why: "non-finite float into JSON" }, false);
+                self.report(loc, PKind::Unexpected { must_contain: vec![], any_of: vec![], any_of2: vec![], why: "non-finite float into JSON" }, false);
             }
             OVK::Seq(s) => {
                 for (i, x) in s.iter().enumerate() {
@@ -600,13 +602,13 @@ impl Interp {
         };
         if it.nonzero && v == 0 {
             // "a zero" and a bound of the target
-            self.report(loc, PKind::Unexpected { must_contain: vec!["zero".into()], any_of: vec![it.min.to_string(), it.max.to_string()], why: "zero for NonZero" }, false);
+            self.report(loc, PKind::Unexpected { must_contain: vec![], any_of: vec!["zero".into(), "Zero".into(), "`0`".into(), " 0".into()], any_of2: vec![it.min.to_string(), it.max.to_string(), "non-zero".into(), "nonzero".into(), "non zero".into(), "NonZero".into()], why: "zero for NonZero" }, false);
             return None;
         }
         if v >= 0 && (v as u128) > it.max {
             self.report(
                 loc,
-                PKind::Unexpected { must_contain: vec![v.to_string(), it.max.to_string()], any_of: vec![], why: "integer above MAX" },
+                PKind::Unexpected { must_contain: vec![v.to_string(), it.max.to_string()], any_of: vec![], any_of2: vec![], why: "integer above MAX" },
                 false,
             );
             return None;
@@ -614,7 +616,7 @@ impl Interp {
         if v < it.min {
             self.report(
                 loc,
-                PKind::Unexpected { must_contain: vec![v.to_string(), it.min.to_string()], any_of: vec![], why: "integer below MIN" },
+                PKind::Unexpected { must_contain: vec![v.to_string(), it.min.to_string()], any_of: vec![], any_of2: vec![], why: "integer below MIN" },
                 false,
             );
             return None;
